@@ -33,5 +33,5 @@ package nodes
 // the node addresses of one family (used by the configuration parser to refuse pools that contain a node address)
 //@ func NodeIPsForFamily
 //@   trusted
-//@   ensures result == nil || fresh(result)
-//@   modifies fresh []net.IP
+//@   pure
+//@   modifies nothing
